@@ -80,17 +80,27 @@
       (projected set, verdict of `p`) have the same relabelled outcome-bearing actions of `p`
       (`A1.filter (isOwn 0) = (A.filter (isOwn p)).map relabA`), the states stay related (`closing`, `cr`, `buffer`,
       `wait` as `projB p`), both lose the head of `sets`.
-  EXACTLY ONE single-step statement is open: `DeliverVisProj` (Props/C02multiY.lean) - the `deliver` step for a set that
-  holds something of `p`.  What is MISSING for it:
-    (a) `.parts` answers: only the LIFT of `resp_proj_parts` to the system step (`proj_deliver_visible_parts_p`): the
-        one-partition step is enabled (`resp_enabled`), its `bpActs` reads the outcome-bearing actions only
-        (Props/C02multiV4.lean `bpActs_filter_out`, PROVED; still needed: on the one-partition worker every
-        outcome-bearing action is of partition 0, so `isOut` and `isOwn 0` select the same actions),
-        `bpActsN_mixed` for the N-side with offsets `base p` (`projPend`),
-        `projV_parts_toResp_eq` (Props/C02multiV4.lean, PROVED), and `BRp` rebuilt with `brp_mk`.  The lift itself
-        is not written.
-    (b) `.conn` answers for a visible set (all messages of `p` in the set and in the buffer re-queued or expired,
-        `closing` set, re-check of a held message of `p`): not started, at either level.
+    * Props/C02multiV4.lean, C02multiL0.lean, C02multiL.lean - THE LIFT, PROVED: `projV_parts_toResp_eq`,
+      `bpActs_filter_out` (`bpActs` reads the outcome-bearing actions only), `resp_P0_out` (on the one-partition worker
+      they are all of partition 0), and `proj_deliver_visible_parts_p`: the `deliver` step of a `.parts` answer for a
+      set that holds something of `p` IS the `deliver` step of the one-partition model (answer `projV p r`, offsets
+      from `base p`), `WRel (BRp p)` kept.
+    * Props/C02multiX.lean - `DeliverVisConnProj M p` (a named OPEN Prop: the `deliver` step of a CONNECTION-ERROR
+      answer `.conn a` for a set that holds something of `p`), `deliverVisProj_of_conn : DeliverVisConnProj M p →
+      DeliverVisProj M p` (PROVED), `ProjSim_partial''` / `log_order_every_partition_partial''` (under `projOK`, from
+      `DeliverVisConnProj`); and the UNCONDITIONAL form for runs whose delivered answers are all per-partition:
+      `projOKp` (= `projOK` with `delOKp`: the answer is not a connection error, and the set holds something of `p`
+      or no message of `p` is held), `ProjSim_parts` and `log_order_every_partition_parts` (no open hypothesis; the
+      latter still has `splitOKs` of the exhibited one-partition run as the premise of its LogOrder conclusion - it
+      is NOT computed, the run is existential).  `projOKp 2 0 {} exTwo` and `projOKp 2 1 {} exTwo` hold by `decide`;
+      `ProjSim_parts` is instantiated on `exTwo` (log `[0, 1]`, successes `[(0,0),(1,1)]` for partition 0), and
+      `log_order_every_partition_parts` on partition 1 with `splitOKs` as the hypothesis.
+  EXACTLY ONE single-step statement is open: `DeliverVisConnProj` (Props/C02multiX.lean) - a connection-error answer for
+  a set that holds something of `p` (all messages of `p` in the set and in the buffer re-queued or expired, `closing`
+  set, `abandon`, the re-check of a held message of `p`).  Not started, at either level (`recheck_proj`,
+  `bpActsN_mixed`, `resp_P0_out`'s pattern and `handle_conn` of Lemmas/C02sysBP.lean are the pieces it would reuse).
+  Everything else of `DeliverProj` is proved: no set / hidden set / visible empty set (`proj_deliver_noneOfP_p`),
+  visible set with a per-partition answer (`proj_deliver_visible_parts_p`).
   Also not established: that the one-partition run exhibited by `ProjSim_partial` satisfies `splitOKs` (it is a
   hypothesis of `log_order_every_partition_partial`; it depends on the hidden/visible history, which the N-state alone
   does not determine), and the full `ProjSim` (no side condition).
